@@ -578,7 +578,19 @@ func c07API(c exprCase, res model.UpdateResult) *failure {
 				return nil
 			}
 		}
-		up := d.Apply(model.Op{Kind: "Update", Table: "tbl", Key: key, Update: c.Expr, Names: c.Names, Values: c.Values})
+		op := model.Op{Kind: "Update", Table: "tbl", Key: key, Update: c.Expr, Names: c.Names, Values: c.Values}
+		if c.Warm != "" {
+			// the same update text once before, on another key of the table and
+			// without condition; then the request itself with a (true) condition
+			// that brings a value placeholder of its own
+			d.Apply(model.Op{Kind: "Update", Table: "tbl", Key: model.Item{"pk": model.Str("another-key")}, Update: c.Expr, Names: c.Names, Values: c.Values})
+			op.Values = map[string]model.AV{":c07pk": model.Str("another-key")}
+			for k, v := range c.Values {
+				op.Values[k] = v
+			}
+			op.Cond = "pk <> :c07pk"
+		}
+		up := d.Apply(op)
 		if up.Err == model.ErrRuntimePanic {
 			return newFail("runtime panic", "%s UpdateItem %q: %s", d.Name(), c.Expr, up.ErrText)
 		}
